@@ -30,4 +30,14 @@ CHECKS = {
        'finding every slot held, no deadlock, all slots re-acquirable afterwards.',
   note='Exhaustive only for the listed small configurations and preemption bounds. Schedule granularity = the instrumented calls (open, flock, chmod, close, remove, '
        'sleep, time, randint). Timeouts are modelled as 1-5 polling steps on a virtual clock. NFS/lockd semantics and cleanup_lockdir are outside the model.'),
+ 'C10': dict(
+  category='exploration',
+  design_ref='DESIGN.md section 11',
+  technique='property-based testing (Hypothesis) of the real WSGI app with a synthetic solid-colour upstream and generated authorize callbacks; independent shapely/pyproj pixel oracle of the permitted regions',
+  text='Generated layer trees, services and authorize-callback results (full/partial/none/unauthenticated, per-layer and global limited_to as bbox/WKT/shapely geometry in '
+       'the same or another SRS) are driven through WSGI (WMS GetMap/GetFeatureInfo, TMS, WMTS KVP/REST incl. GetFeatureInfo, KML; png and jpeg) against an upstream that '
+       'paints each layer a unique opaque colour. Every response pixel, upstream call and feature-info answer is compared with an independent geometric model: denied colours '
+       'appear nowhere and are never requested, pixels > 1 px outside a limit are transparent/bgcolor, pixels > 2 px inside keep their colour, feature info only inside.',
+  note='Exploration, not exhaustive. Leaks thinner than ~1 px (3 px for JPEG responses) are invisible; "well inside" is 2 px because the mask is mitred by design; '
+       'capabilities filtering, legends and the demo service are not judged.'),
 }
